@@ -250,7 +250,7 @@ def native_checks(pid, mine, registry, reports, tier, seed):
         alphabet = con.native_alphabet() or BASE_ALPHABET
         alphabet_q = alphabet[:8] if tier == 'quick' else alphabet
         meta[ri] = {'alphabet': alphabet_q, 'n': 0, 'fail': 0, 'xc': 0, 'mm': 0}
-        for case in con.cases():
+        for case in con.active_cases():
             ins = list(con.native_inputs(case, alphabet_q, maxlen, rng, 0 if tier == 'quick' else 300))
             budget = 600 if tier == 'quick' else 20000
             if len(ins) > budget:
@@ -324,43 +324,56 @@ def load_lock(pid):
     return set(json.load(open(p)).get(pid, []))
 
 
-def match_known(known, ob, witness):
-    """A known finding matches by obligation name pattern AND (when it lists witnesses) by witness input."""
+def candidates_known(known, ob):
     import fnmatch
-    for k in known:
-        if ob is not None and 'obligation' in k and not fnmatch.fnmatch(ob.name, k['obligation']):
+    return [k for k in known if 'obligation' in k and fnmatch.fnmatchcase(ob.name, k['obligation'])]
+
+
+def restriction(k, ob):
+    """Extra assumptions that exclude the finding's witnesses from the obligation's quantified domain."""
+    import fnmatch
+    from .models import any_fold
+    consts = {}
+    for a in list(ob.assumptions) + [ob.goal]:
+        T.free_consts(a, consts)
+    out = []
+    for r in k.get('restrict', []):
+        hit = [c for n, c in consts.items() if fnmatch.fnmatchcase(n, r['const'])]
+        if not hit:
+            return None
+        for c in hit:
+            if r['kind'] == 'no_char' and c.sort() == T.Str:
+                out.append(z3.Not(any_fold(T.CharClass.of(r['char'], repr(r['char']))).state((0,), c)[0] == 1))
+            elif r['kind'] == 'first_char_not_in' and c.sort() == T.Str:
+                out.append(z3.Or(z3.Length(c) == 0, z3.And(*[c[0] != ord(ch) for ch in r['chars']])))
+            elif r['kind'] == 'int_not_in' and c.sort() == T.Int:
+                out.append(z3.And(*[c != v for v in r['values']]))
+            elif r['kind'] == 'str_not_in' and c.sort() == T.Str:
+                out.append(z3.And(*[c != T.lit(v) for v in r['values']]))
+    return out or None
+
+
+def match_known_native(known, failure):
+    """A native (runtime-contract) failure is attributed to a known finding only if its input is one of the
+    finding's witnesses (same contract + clause, and the input satisfies the finding's witness predicate)."""
+    import fnmatch
+    for k, nat in [(k, n) for k in known for n in (k.get('native') or [])]:
+        if nat.get('contract') != failure.get('contract'):
             continue
-        if ob is None and 'contract' in k and witness is not None and witness.get('contract') != k['contract']:
+        if 'clause' in nat and not fnmatch.fnmatchcase(failure.get('clause', ''), nat['clause']):
             continue
-        if ob is None and 'contract' not in k:
+        if 'case' in nat and not fnmatch.fnmatchcase(failure.get('case', ''), nat['case']):
             continue
-        pred = k.get('witness')
-        if pred is None:
-            return k
-        if witness is None:
-            # obligation-level match is enough when the solver gave no usable input
-            if k.get('allow_without_witness'):
-                return k
+        inp = failure.get('input') or {}
+        vals = [v for v in inp.values() if isinstance(v, str)]
+        if 'contains_any' in nat and not any(any(ch in v for ch in nat['contains_any']) for v in vals):
             continue
-        if witness_matches(pred, witness):
-            return k
+        if 'first_char_in' in nat and not any(v[:1] and v[0] in nat['first_char_in'] for v in vals):
+            continue
+        if 'inputs' in nat and inp not in nat['inputs']:
+            continue
+        return k
     return None
-
-
-def witness_matches(pred, witness):
-    """pred: {'contains': [chars...]} -> every string input of the witness that breaks must contain one of
-    them; or {'inputs': [...]} exact list; or {'clause': name}."""
-    inp = witness.get('input')
-    text = json.dumps(inp, sort_keys=True, ensure_ascii=False, default=str)
-    if 'clause' in pred and witness.get('clause') != pred['clause']:
-        return False
-    if 'contains_any' in pred:
-        vals = [v for v in (inp.values() if isinstance(inp, dict) else [inp]) if isinstance(v, str)]
-        if not any(any(ch in v for ch in pred['contains_any']) for v in vals):
-            return False
-    if 'inputs' in pred and inp not in pred['inputs']:
-        return False
-    return True
 
 
 def find_witness(pid, ob, r, mine, registry, lemmas, tier, seed):
@@ -389,7 +402,7 @@ def find_witness(pid, ob, r, mine, registry, lemmas, tier, seed):
         base = con.native_alphabet() or BASE_ALPHABET
         alpha = ''.join(sorted(chars)) + ''.join(ch for ch in base[:6] if ch not in chars)
         alpha = alpha[:8]
-        for case in con.cases():
+        for case in con.active_cases():
             # first: the model's own values
             cand = []
             names = con.native_params(case) or []
